@@ -21,3 +21,6 @@
 (declare-fun rawFull (Bytes) Bytes)          ; the first TLV of an input, as asn1.Unmarshal stores it in RawValue.FullBytes
 (declare-fun isTlv (Bytes) Bool)             ; the input starts with a well-formed TLV
 (assert (forall ((d Deep)) (! (and (isTlv (der d)) (= (rawFull (der d)) (der d))) :pattern ((der d)))))
+; asn1.Unmarshal as the inverse of asn1.Marshal on what Marshal produces (assumed)
+(declare-fun derParse (Bytes) Deep)
+(assert (forall ((d Deep)) (! (= (derParse (der d)) d) :pattern ((der d)))))
